@@ -38,7 +38,8 @@ THEOREMS = [NS + t for t in (
     'C03_save_twice_identical', 'C03_pickle_not_rewritten', 'C03_save_twice_asWritten_counterexample',
     'C03_idempotent_map', 'C03_idempotent_bytes', 'C03_idempotent_counterexample',
     'C03_carried', 'C03_resave_settings', 'C03_resave_identical',
-    'C03_loaded_preserves', 'C03_loaded_inv', 'C03_observational', 'C03_observational_outputs', 'C03_saved_values',
+    'C03_loaded_preserves', 'C03_loaded_inv', 'C03_observational', 'C03_observational_outputs', 'C03_alike',
+    'C03_observational_X', 'C03_saved_values',
     'wf_of_viewCheck', 'tableView_local', 'C03_observational_inst')]
 DESIGN_REF = 'DESIGN.md §7 C03'
 RULE = ('c01 DAG workbooks (2-14 cells, ranges, cross-sheet, defined names) extended by 1-4 hostile value cells in '
@@ -47,7 +48,9 @@ RULE = ('c01 DAG workbooks (2-14 cells, ranges, cross-sheet, defined names) exte
         'them, their range with INDEX and COUNT; pre-save: every node evaluated in a random order (the build order), '
         'then 0-4 set_values (also of hostile scalars); x {yml, json, pkl} x {cycles off, on} x {same thread, fresh '
         'thread, fresh subprocess} x {in-memory workbook, .xlsx with stored results} x extra_data {None, json-typed '
-        'dict}; post-load history of 1-25 set_value/evaluate + an evaluate of every node. Deterministic core: every '
+        'dict}; post-load history of 1-25 operations (set_value of a cell / a range address / a list of cells, evaluate '
+        'of an address / a list) + an evaluate of every node; 1 case in 5 is a c01 near-equal-number workbook (a-b, a=b '
+        'over numbers 1 ulp apart), 1 in 10 SUMs of 3-6 non-dyadic floats. Deterministic core: every '
         'hostile scalar x 3 formats in a fixed 3-cell workbook; a CSE array whose top-left cell is built before / '
         'after the range; the iterative fixture in a fresh thread and a fresh process. Non-trivial: an evaluate of a '
         'formula/range node follows a post-load set_value of one of its precedents.')
@@ -55,7 +58,10 @@ ASSUMPTIONS = [
     'the saved model is dependency closed (every cell it evaluated, with all precedents): cells never built are not '
     'part of "every saved cell"',
     'extra_data is json-typed (string keys, lists, no tuples) and does not use the keys cycles/excel_hash/cell_map/filename',
-    'formula language of the evaluated histories: =ref, &, +, SUM, COUNT, INDEX (c01); hostile scalars only flow '
+    'formula language of the evaluated histories: =ref, &, +, -, =, SUM, COUNT, INDEX (c01); cases whose nodes or '
+    'operations fall outside the whitelist KINDS/OPS of this module (future c01 generator extensions) are not emitted; '
+    'model vs implementation compares numbers up to float rounding of sums (rel 1e-12), loaded vs original exactly; '
+    'hostile scalars only flow '
     'through =ref, ranges, INDEX, COUNT(range); iterative mode is exercised on acyclic workbooks (same values) and '
     'on the cyclic fixture only through the implementation-only oracle',
     'the text codecs satisfy dec(enc v) = v outside the listed findings (yaml: U+0085; json: characters beyond the BMP)',
@@ -158,6 +164,27 @@ def _run_ops(comp, nodes, ops, strict=False):
                 out.append('ok')
             except AssertionError:
                 out.append('rej')
+            except Exception as exc:   # noqa
+                out.append(core.canon_exc(exc))
+        elif op[0] == 'SR':
+            # set_value(<range address> | [cell addresses], [values]) (flat or nested values)
+            vals = [c01._py(t) for t in op[3]]
+            arg = vals
+            if len(op) > 4 and op[4]:
+                arg = [vals[k:k + op[4]] for k in range(0, len(vals), op[4])]
+            try:
+                comp.set_value(op[1], arg)
+                out.append('ok')
+            except AssertionError:
+                out.append('rej')
+            except Exception as exc:   # noqa
+                out.append(core.canon_exc(exc))
+        elif op[0] == 'EL':
+            try:
+                addrs = [nodes[a][1] for a in op[1]]
+                res = comp.evaluate(addrs if len(op[1]) % 2 else tuple(addrs))
+                out.append('&'.join(_enc_result(nodes, a, v) + (_neg_zero(v) if strict else '')
+                                    for a, v in zip(op[1], res)))
             except Exception as exc:   # noqa
                 out.append(core.canon_exc(exc))
         else:
@@ -391,8 +418,38 @@ def model_lines(case):
         toks += ['EXTRA', str(len(extra))] + [core.enc_text(k) for k in extra]
     toks.append('OPS')
     for op in ([] if case.get('noeval') else case['ops']):
-        toks += ['S', str(op[1]), op[2]] if op[0] == 'S' else ['E', str(op[1])]
+        if op[0] == 'S':
+            toks += ['S', str(op[1]), op[2]]
+        elif op[0] == 'E':
+            toks += ['E', str(op[1])]
+        elif op[0] == 'SR':
+            toks += ['M', str(len(op[2]))] + [t for j, v in zip(op[2], op[3]) for t in (str(j), v)]
+        else:
+            toks += ['X', str(len(op[1]))] + [str(a) for a in op[1]]
     return [' '.join(toks)]
+
+
+def same(impl_out, model_out):
+    """equal up to float rounding in the `ops` section (numbers travel exactly; the model adds exact rationals, pycel
+    floats).  Only model-vs-implementation: the oracle compares loaded and original model exactly."""
+    if impl_out == model_out:
+        return True
+    a, b = impl_out.split(';'), (model_out or '').split(';')
+    if len(a) != len(b):
+        return False
+    for x, y in zip(a, b):
+        if x == y:
+            continue
+        if not (x.startswith('ops:') and y.startswith('ops:')):
+            return False
+        xs, ys = x[4:].split('^'), y[4:].split('^')
+        if len(xs) != len(ys):
+            return False
+        for p, q in zip(xs, ys):
+            ps, qs = p.replace('&', ' ').split(' '), q.replace('&', ' ').split(' ')
+            if len(ps) != len(qs) or not all(u == v or core.num_close(u, v) for u, v in zip(ps, qs)):
+                return False
+    return True
 
 
 def governed(case):
@@ -401,6 +458,14 @@ def governed(case):
 
 # ---------------------------------------------------------------------------------------------------------------
 # oracle: loaded vs original, implementation only
+
+def _op_nodes(op):
+    return list(op[2]) if op[0] == 'SR' else list(op[1]) if op[0] == 'EL' else [op[1]]
+
+
+def _op_text(nodes, op):
+    return f'{op[0]}({",".join(nodes[j][1] for j in _op_nodes(op))})'
+
 
 def _oracle_failures(case, info):
     """-> list of (text, node or None)"""
@@ -423,8 +488,8 @@ def _oracle_failures(case, info):
     for k, (a, b) in enumerate(zip(info['loaded_ops'], info['orig_ops'])):
         if a != b:
             op = case['ops'][k]
-            out.append((f'post-load op #{k} {op[0]}({nodes[op[1]][1]}): loaded {core.show(a)}, original {core.show(b)}',
-                        op[1]))
+            text = f'post-load op #{k} {_op_text(nodes, op)}: loaded {core.show(a)}, original {core.show(b)}'
+            out.extend((text, j) for j in _op_nodes(op))
             break
     for name, (a, b) in info['carried'].items():
         if a != b:
@@ -440,7 +505,7 @@ def oracles(results):
             continue
         fails = _oracle_failures(r.case, info)
         if fails:
-            yield r.case, '; '.join(t for t, _ in fails[:3])
+            yield r.case, '; '.join(list(dict.fromkeys(t for t, _ in fails))[:3])
 
 
 # ---------------------------------------------------------------------------------------------------------------
@@ -458,16 +523,28 @@ def _poisoned(case, info, pred):
         return set()
     plain = [n if n[0] != 'X' else ['I', n[1], 'z'] for n in nodes]
     clo = c01._precedents(plain)
-    return src | {i for i in range(len(nodes)) if clo[i] & src}
+    p = src | {i for i in range(len(nodes)) if clo[i] & src}
+    # a multi-cell set_value that touches such a cell is aborted there by the model (the cell is code, not a value
+    # cell) while pycel writes on: its other members and their dependants are affected too
+    while True:
+        more = set()
+        for op in case['ops']:
+            if op[0] == 'SR' and set(op[2]) & p:
+                more |= set(op[2])
+        more |= {i for i in range(len(nodes)) if clo[i] & more}
+        if more <= p:
+            return p
+        p |= more
 
 
 def _diff_nodes(case, info, impl_out, model_out):
-    """nodes at which implementation and model outputs differ; None when the difference cannot be localised"""
+    """groups of nodes at which implementation and model outputs differ (one group per differing observation: the
+    nodes a multi-cell operation touches form one group); None when the difference cannot be localised"""
     a = dict(p.split(':', 1) for p in (impl_out or '').split(';') if ':' in p)
     b = dict(p.split(':', 1) for p in (model_out or '').split(';') if ':' in p)
     if set(a) != set(b) or 'ops' not in a:
         return None
-    bad = set()
+    bad = []
     for sec in a:
         if a[sec] == b[sec]:
             continue
@@ -475,7 +552,9 @@ def _diff_nodes(case, info, impl_out, model_out):
             xs, ys = a[sec].split('^'), b[sec].split('^')
             if len(xs) != len(ys):
                 return None
-            bad |= {case['ops'][k][1] for k, (x, y) in enumerate(zip(xs, ys)) if x != y}
+            for k, (x, y) in enumerate(zip(xs, ys)):
+                if x != y and not same('ops:' + x, 'ops:' + y):
+                    bad.append(set(_op_nodes(case['ops'][k])))
         elif sec == 'map':
             xs, ys = a[sec].split('~'), b[sec].split('~')
             if len(xs) != len(ys):
@@ -484,7 +563,7 @@ def _diff_nodes(case, info, impl_out, model_out):
                 if x != y:
                     if x.split('=')[0] != y.split('=')[0]:
                         return None
-                    bad.add(int(x.split('=')[0]))
+                    bad.append({int(x.split('=')[0])})
         elif sec not in ('idem', 'idemmap'):     # consequences of a changed constant, localised by map/ops
             return None
     return bad
@@ -500,30 +579,33 @@ def finding_key(case, impl_out, model_out):
     if case['fmt'] == 'pkl' and impl_out == '!exc:bare:PicklingError' and 'twice' not in info and \
             _poisoned(case, info, classes[0][1]):
         return 'text.eq-prefix'     # to_file itself fails: the text constant became code naming a library function
-    bad = set()
+    groups = []
     if model_out is not None and impl_out != model_out:
         d = _diff_nodes(case, info, impl_out, model_out)
         if d is None:
             return None
-        bad |= d
+        groups += d
+    by_text = {}
     for text, node in _oracle_failures(case, info):
         if node is None:
             if 'cell_map content' in text:
                 continue            # consequence of a changed constant; localised by the per-cell comparison
             return None
-        bad.add(node)
-    if not bad:
+        by_text.setdefault(text, set()).add(node)
+    groups += list(by_text.values())
+    if not groups:
         return None
     hit = None
-    rest = set(bad)
-    for name, pred, fmts in classes:
-        if case['fmt'] not in fmts:
-            continue
-        p = _poisoned(case, info, pred)
-        if p & rest:
-            hit = hit or name
-            rest -= p
-    return hit if hit and not rest else None
+    for g in groups:
+        explained = False
+        for name, pred, fmts in classes:
+            if case['fmt'] in fmts and _poisoned(case, info, pred) & g:
+                hit = hit or name
+                explained = True
+                break
+        if not explained:
+            return None
+    return hit
 
 
 # ---------------------------------------------------------------------------------------------------------------
@@ -536,9 +618,9 @@ def nontrivial(case):
     clo = c01._precedents(nodes)
     changed = set()
     for op in case['ops']:
-        if op[0] == 'S' and nodes[op[1]][0] == 'I':
-            changed.add(op[1])
-        elif op[0] == 'E' and clo[op[1]] & changed:
+        if op[0] in ('S', 'SR'):
+            changed |= {j for j in _op_nodes(op) if nodes[j][0] == 'I'}
+        elif any(clo[a] & changed for a in _op_nodes(op)):
             return True
     return False
 
@@ -607,10 +689,63 @@ def _json_extra(rng):
     return {key: rng.choice(pool) for key in keys[:rng.randint(1, 4)]}
 
 
-def gen_case(rng, fmt, mode, cycles):
-    nodes = c01.gen_workbook(rng, free_ranges=rng.random() < 0.3)
+KINDS = {'ref', 'cat', 'add', 'sub', 'eq', 'sum', 'cnt', 'idx'}       # what Drv/C03.lean parses (EngineInst.Fml)
+OPS = {'S': 3, 'E': 2, 'SR': 5, 'EL': 2}
+
+
+def supported(case):
+    """the workbook and both histories only use node kinds and operations the model driver understands: a case that
+    the (shared, evolving) c01 generators produce outside this whitelist is never emitted"""
+    for n in case['nodes']:
+        if n[0] not in ('I', 'F', 'R', 'X') or (n[0] == 'F' and n[2] not in KINDS):
+            return False
+    for op in case['pre'] + case['ops']:
+        if op[0] not in OPS or len(op) != OPS[op[0]]:
+            return False
+    return True
+
+
+def gen_case(rng, fmt, mode, cycles, near=False):
+    for _ in range(20):
+        case = _gen_case(rng, fmt, mode, cycles, near)
+        if supported(case):
+            return case
+        case['ops'] = [op for op in case['ops'] if op[0] in OPS and len(op) == OPS[op[0]]]
+        if supported(case):
+            return case
+    return None
+
+
+FLOAT_BASES = [4096.25, 0.1, 1e-3, 0.5, 1000000, 123456789, 1e16, -250000, 0.7, 1 / 3]
+
+
+def gen_floatsum(rng):
+    """3-6 non-dyadic floats, SUM over their range / over the cells / a+b: Python's sum() compensates only exact
+    floats, so the TYPE a number is loaded as (ruamel ScalarFloat) is observable in the last bit"""
+    k = rng.randint(3, 6)
+    nodes = [['I', f'Sheet1!A{r}', _tok(rng.choice(FLOAT_BASES) * (1 + rng.choice([0, 1, -1]) * 2.0 ** -rng.randint(20, 50)))]
+             for r in range(1, k + 1)]
+    nodes.append(['R', f'Sheet1!A1:A{k}', k, 1, list(range(k))])
+    nodes.append(['F', 'Sheet1!B1', 'sum', [k]])
+    nodes.append(['F', 'Sheet1!B2', 'sum', rng.sample(range(k), 3)])
+    nodes.append(['F', 'Sheet1!B3', 'add', rng.sample(range(k), 2)])
+    nodes.append(['F', 'Sheet1!B4', 'sub', rng.sample(range(k), 2)])
+    ops = [['E', i] for i in range(len(nodes))]
+    for _ in range(rng.randint(1, 4)):
+        ops.append(['S', rng.randrange(k), _tok(rng.choice(FLOAT_BASES) * (1 + 2.0 ** -rng.randint(20, 50)))])
+        ops += [['E', k + 1], ['E', k + 2], ['EL', [k + 3, k + 4, k]]]
+    return nodes, ops
+
+
+def _gen_case(rng, fmt, mode, cycles, near):
+    if near == 2:
+        nodes, near_ops = gen_floatsum(rng)
+    elif near:
+        nodes, near_ops = c01.gen_near(rng)
+    else:
+        nodes = c01.gen_workbook(rng, free_ranges=rng.random() < 0.3)
     names = {}
-    if rng.random() < 0.25:
+    if not near and rng.random() < 0.25:
         pool = ['name_a', 'rate_b', 'total_c']
         used = sorted({j for n in nodes if n[0] == 'F' for j in (n[3][:1] if n[2] == 'idx' else n[3])})
         for j in rng.sample(used, min(len(used), rng.randint(1, 3))):
@@ -629,7 +764,7 @@ def gen_case(rng, fmt, mode, cycles):
             pre.append(['S', rng.choice(hostile), _tok(rng.choice(HOSTILE))])
         else:
             pre.append(['S', rng.choice(inputs), _tok(c01.rand_value(rng))])
-    ops = c01.gen_history(rng, nodes, True)
+    ops = (near_ops + [['E', i] for i in range(len(nodes))]) if near else c01.gen_history(rng, nodes, True)
     for _ in range(rng.randint(0, 3)):
         pos = rng.randrange(len(ops) - len(nodes) + 1)
         ops.insert(pos, ['S', rng.choice(hostile), _tok(rng.choice(HOSTILE))])
@@ -638,10 +773,14 @@ def gen_case(rng, fmt, mode, cycles):
         # recomputes a range that `needs_calc`), which differs between a model that cached it before a set_value
         # and one that was just loaded
         ops = [op for op in ops if not (op[0] == 'E' and nodes[op[1]][0] == 'R')]
+        ops = [[op[0], [a for a in op[1] if nodes[a][0] != 'R']] if op[0] == 'EL' else op for op in ops]
+        ops = [op for op in ops if not (op[0] == 'EL' and not op[1])]
     case = {'nodes': nodes, 'fmt': fmt, 'mode': mode, 'cycles': cycles, 'pre': pre, 'ops': ops,
             'src': 'xlsx' if rng.random() < 0.2 else 'mem', 'extra': _json_extra(rng)}
     if names:
         case['names'] = names
+    if near:
+        case['near'] = near
     return case
 
 
@@ -696,4 +835,6 @@ def cases(tier, rng):
         fmt = fmts[k % 3]
         r = rng.random()
         mode = 'proc' if k % (24 if thorough else 80) < 3 else ('thread' if r < 0.45 else 'same')
-        yield gen_case(rng, fmt, mode, 1 if rng.random() < 0.35 else 0)
+        case = gen_case(rng, fmt, mode, 1 if rng.random() < 0.35 else 0, near=1 if k % 5 == 4 else 2 if k % 10 == 3 else 0)
+        if case is not None:
+            yield case
